@@ -58,9 +58,18 @@ pub fn streams_blocked_frame_with_dir(
     dir: Dir,
 ) -> impl Fn(&[u8]) -> nom::IResult<&[u8], StreamsBlockedFrame> {
     move |input: &[u8]| {
-        let (input, max_streams) = be_varint(input)?;
+        let (remain, max_streams) = be_varint(input)?;
+        // This value cannot exceed 2^60, as it is not possible to encode stream IDs larger than
+        // 2^62-1. Receipt of a frame that encodes a larger stream ID MUST be treated as a
+        // connection error of type STREAM_LIMIT_ERROR or FRAME_ENCODING_ERROR.
+        if max_streams.into_u64() > (1 << 60) {
+            return Err(nom::Err::Error(nom::error::Error::new(
+                input,
+                nom::error::ErrorKind::TooLarge,
+            )));
+        }
         Ok((
-            input,
+            remain,
             match dir {
                 Dir::Bi => StreamsBlockedFrame::Bi(max_streams),
                 Dir::Uni => StreamsBlockedFrame::Uni(max_streams),
